@@ -101,14 +101,14 @@ impl<'tcx> Walker<'tcx> {
         let tcx = self.tcx;
         match Instance::try_resolve(tcx, self.env, did, args) {
             Err(_) => {
-                eff.errors.insert(format!("resolve-error:{}", tcx.def_path_str_with_args(did, args)));
+                eff.errors.insert(format!("resolve-error:{}", crate::dpsa(tcx, did, args)));
                 eff.unwind = true;
             }
             Ok(None) => {
                 // too generic: a trait method on a type parameter (or projection) of the root
-                eff.user.insert(tcx.def_path_str_with_args(did, args));
+                eff.user.insert(crate::dpsa(tcx, did, args));
                 eff.unwind = true;
-                eff.unwind_why.insert(format!("user:{}", tcx.def_path_str_with_args(did, args)));
+                eff.unwind_why.insert(format!("user:{}", crate::dpsa(tcx, did, args)));
             }
             Ok(Some(inst)) => self.visit_instance(inst, eff, seen),
         }
@@ -124,7 +124,7 @@ impl<'tcx> Walker<'tcx> {
             ty::FnDef(d, a) => self.visit_call(*d, a, eff, seen),
             ty::Closure(d, a) => {
                 if d.is_local() {
-                    eff.local.insert(self.tcx.def_path_str(*d));
+                    eff.local.insert(crate::dps(self.tcx, *d));
                 } else {
                     let inst = Instance::new_raw(*d, a);
                     self.visit_instance(inst, eff, seen);
@@ -151,7 +151,7 @@ impl<'tcx> Walker<'tcx> {
             return;
         }
         let did = inst.def_id();
-        let path = tcx.def_path_str(did);
+        let path = crate::dps(tcx, did);
         match inst.def {
             ty::InstanceKind::Intrinsic(_) => {
                 let name = tcx.item_name(did).to_string();
